@@ -23,7 +23,7 @@ import (
 )
 
 type c20Op struct {
-	Op     string `json:"op"` // request | complete | mutate
+	Op     string `json:"op"` // request | complete | cancel
 	Caller int    `json:"caller,omitempty"`
 	Image  int    `json:"image,omitempty"`
 	Fail   bool   `json:"fail,omitempty"`
@@ -106,8 +106,10 @@ func runC20(c *c20Case) (labels map[string]bool, err error) {
 	w := newC20World()
 	ctx := context.Background()
 	type waiter struct {
-		caller int
-		done   chan c20Result
+		caller    int
+		done      chan c20Result
+		cancel    context.CancelFunc
+		cancelled *bool
 	}
 	// model
 	inFlight := map[string]bool{}
@@ -123,8 +125,10 @@ func runC20(c *c20Case) (labels map[string]bool, err error) {
 			before := w.registered(img)
 			done := make(chan c20Result, 1)
 			caller := op.Caller
+			cctx, cancel := context.WithCancel(ctx)
+			defer cancel()
 			go func() {
-				pkg, perr := w.rm.Pull(ctx, img)
+				pkg, perr := w.rm.Pull(cctx, img)
 				done <- c20Result{caller: caller, image: img, pkg: pkg, err: perr}
 			}()
 			if !waitFor(func() bool { return w.registered(img) == before+1 }) {
@@ -148,9 +152,21 @@ func runC20(c *c20Case) (labels map[string]bool, err error) {
 				case <-time.After(2 * time.Millisecond):
 				}
 			}
-			waiters[img] = append(waiters[img], waiter{caller: caller, done: done})
+			waiters[img] = append(waiters[img], waiter{caller: caller, done: done, cancel: cancel, cancelled: new(bool)})
 			if len(waiters[img]) >= 2 {
 				labels["two-callers-one-pull"] = true
+			}
+		case "cancel":
+			// a caller gives up while the pull it waits for is still running: whether it keeps waiting for the result or returns
+			// at once with its context's error is the implementation's choice; the pull stays the one pull in flight
+			for _, wt := range waiters[img] {
+				if wt.caller == op.Caller && !*wt.cancelled {
+					wt.cancel()
+					*wt.cancelled = true
+					labels["caller-cancelled-mid-pull"] = true
+					time.Sleep(2 * time.Millisecond)
+					break
+				}
 			}
 		case "complete":
 			if !inFlight[img] {
@@ -183,6 +199,11 @@ func runC20(c *c20Case) (labels map[string]bool, err error) {
 			for _, wt := range waiters[img] {
 				select {
 				case r := <-wt.done:
+					if *wt.cancelled && errors.Is(r.err, context.Canceled) {
+						// the caller had given up and was told so: that is its one response
+						received[wt.caller] = append(received[wt.caller], c20Result{caller: wt.caller, image: img, err: r.err})
+						continue
+					}
 					if (r.err != nil) != op.Fail || (op.Fail && r.err.Error() != res.Err.Error()) {
 						return labels, Violf("C20", "wrong-response", "step %d: caller %d got err=%v for a pull that returned err=%v", i, wt.caller, r.err, res.Err)
 					}
@@ -303,7 +324,7 @@ func filesEqual(a, b packagetypes.Files) bool {
 }
 
 func TestC20(t *testing.T) {
-	st := NewStats("C20", "scripted", "case = harness-scheduled history of request(caller,image) / complete(image, package|error) over 3 images and up to 6 callers on the real RequestManager with a scripted, blocking pull function; each request is awaited until its receiver is registered so the interleaving of registration, completion and broadcast is chosen by the scenario; oracle = sequential model R-pull (one pull in flight per image, exactly one response per caller equal to the in-flight pull's result, fresh pull after a broadcast) + memory aliasing checks between all packages handed out; non-trivial = >=2 callers waited on one pull and a request arrived after a completion")
+	st := NewStats("C20", "scripted", "case = harness-scheduled history of request(caller,image) / complete(image, package|error) / cancel(caller: the context of a waiting caller ends) over 3 images and up to 6 callers on the real RequestManager with a scripted, blocking pull function; each request is awaited until its receiver is registered so the interleaving of registration, completion and broadcast is chosen by the scenario; oracle = sequential model R-pull (one pull in flight per image, exactly one response per caller equal to the in-flight pull's result, fresh pull after a broadcast) + memory aliasing checks between all packages handed out; non-trivial = >=2 callers waited on one pull and a request arrived after a completion")
 	CheckOrReplay(t, st, func(data []byte) (any, error) {
 		var c c20Case
 		if err := json.Unmarshal(data, &c); err != nil {
@@ -316,8 +337,10 @@ func TestC20(t *testing.T) {
 		n := rapid.IntRange(2, 16).Draw(rt, "n")
 		for i := 0; i < n; i++ {
 			op := c20Op{Caller: rapid.IntRange(0, 5).Draw(rt, "caller"), Image: rapid.IntRange(0, 2).Draw(rt, "image")}
-			if rapid.IntRange(0, 2).Draw(rt, "kind") < 2 {
+			if k := rapid.IntRange(0, 8).Draw(rt, "kind"); k < 5 {
 				op.Op = "request"
+			} else if k == 5 {
+				op.Op = "cancel"
 			} else {
 				op.Op = "complete"
 				op.Fail = rapid.IntRange(0, 3).Draw(rt, "fail") == 0
